@@ -327,6 +327,12 @@ func c09ConcRun(c c09Conc) error {
 }
 
 func TestC09(t *testing.T) {
+	ev.Fixed(t, "c09_first_call", func(do func(int) bool) { do(0) }, func(int) error {
+		if ev.Cfg.Replay != "" {
+			return nil // only meaningful as the first thing a process does
+		}
+		return firstCallCheck()
+	})
 	if !requireHooks(t) {
 		return
 	}
